@@ -46,6 +46,7 @@ pub fn wide_case(case: u64) -> J {
 
 pub fn gen_case(rng: &mut Rng, _thorough: bool, case: u64) -> J {
     if case % 53 == 11 { return wide_case(case); }
+    if case % 47 == 13 { return two_proc_runs(case); }
     // criteria: always at least one evaluation budget, so that the run ends even if conflicts were wrongly accepted
     let n1 = 1 + rng.below(60) as usize;
     let mut crits: Vec<(J, TerminationCriterion)> = vec![(json!({"numEval": n1}), TerminationCriterion::NumObjFuncEval(n1))];
@@ -246,4 +247,29 @@ pub fn signal_child() -> J {
         out.push(json!({"ret": ret, "calls": calls.load(Ordering::SeqCst)}));
     }
     json!(out)
+}
+
+/// two runs with a child-process objective function, one after the other on ONE thread, with different specs: what
+/// the children of the second run are given must be parameter sets of the second run (C01, C08), whatever the first
+/// run did before.  The children are `/bin/sh` one-liners that append their parameter argument to a log file.
+pub fn two_proc_runs(case: u64) -> J {
+    let dir = crate::proc::build_dir().join("run").join(format!("{}_{}p", std::process::id(), case));
+    let _ = std::fs::remove_dir_all(&dir);
+    std::fs::create_dir_all(&dir).unwrap();
+    let mut logs = Vec::new();
+    let specs = ["type: bool\ninit: true\n", "type: int\ninit: 3\nscale: 2\nmin: 0\nmax: 10\n"];
+    let guesses: [Option<J>; 2] = [None, Some(json!(7))];
+    let mut rets = Vec::new();
+    for r in 0..2 {
+        let log = dir.join(format!("args_{r}.log"));
+        let script = format!("printf '%s\\n' \"$1\" >> '{}'; echo '{{\"objFuncVal\": 1.5}}'", log.display());
+        let def = cambrian::process::ObjFuncProcessDef::new("/bin/sh".into(), vec!["-c".into(), script.into(), "sh".into()], None);
+        let spec = spec_util::from_yaml_str(specs[r]).unwrap();
+        let cfg = AlgoConfigBuilder::new().build().unwrap();
+        let res = std::panic::catch_unwind(std::panic::AssertUnwindSafe(|| sync_launch::launch_with_async_obj_func(spec, def, cfg, vec![TerminationCriterion::NumObjFuncEval(if r == 0 { 6 } else { 10 })], guesses[r].clone(), false, None)));
+        rets.push(match res { Err(_) => json!("panic"), Ok(Ok(rep)) => json!({"ok": rep.num_obj_func_eval_completed}), Ok(Err(e)) => json!({"err": e.to_string()}) });
+        logs.push(std::fs::read_to_string(&log).unwrap_or_default().lines().map(|l| l.to_string()).collect::<Vec<_>>());
+    }
+    let _ = std::fs::remove_dir_all(&dir);
+    json!({"mode": "run", "twoProcRuns": true, "rets": rets, "args": logs, "criteria": [{"numEval": 10}], "nc": 1, "threaded": false, "calls": 0, "maxLive": 0, "csvRows": 0, "ret": "n/a"})
 }
